@@ -846,6 +846,33 @@ Proof.
   split; apply m_fifo_pair; assumption.
 Qed.
 
+(* the same two facts on the records themselves *)
+Lemma m_drains_ordered evs l1 a l2 d :
+  m_drains (m_run evs) = l1 ++ a :: l2 -> In d l2 -> d_shard d = d_shard a -> d_e d < d_b a.
+Proof. intros E Hd Hs. exact (q_dr_sorted _ _ (inv_run evs) l1 a l2 E d Hd Hs). Qed.
+
+Lemma m_batches_ordered evs l1 a l2 r :
+  m_runs (m_run evs) = l1 ++ a :: l2 -> In r l2 -> r_shard r = r_shard a -> r_b r = r_b a \/ r_e r < r_b a.
+Proof. intros E Hr Hs. exact (q_run_sorted _ _ (inv_run evs) l1 a l2 E r Hr Hs). Qed.
+
+Lemma m_fifo_spec evs a b ra rb :
+  In a (m_subs (m_run evs)) -> In b (m_subs (m_run evs)) -> s_res a = ROk -> s_res b = ROk ->
+  s_shard a = s_shard b -> s_e a < s_b b ->
+  In ra (m_runs (m_run evs)) -> In rb (m_runs (m_run evs)) -> r_task ra = s_task a -> r_task rb = s_task b ->
+  r_b ra < r_b rb \/ (r_b ra = r_b rb /\ r_pos ra < r_pos rb).
+Proof.
+  intros Ha Hb Oa Ob Hs Hlt Hra Hrb Ea Eb. pose proof (inv_run evs) as HI.
+  destruct (q_run_link _ _ HI ra Hra) as (sa' & A1 & A2 & _ & A3).
+  destruct (q_run_link _ _ HI rb Hrb) as (sb' & B1 & B2 & _ & B3).
+  assert (sa' = a) by (apply (m_sub_unique evs); auto; congruence).
+  assert (sb' = b) by (apply (m_sub_unique evs); auto; congruence). subst sa' sb'.
+  assert (X : run_before ra rb = true).
+  { apply (q_fifo _ _ HI ra rb a b); auto; try congruence. destruct (q_subs _ _ HI b Hb) as (_ & X & _). lia. }
+  unfold run_before in X. apply orb_true_iff in X. destruct X as [X|X].
+  - left. apply N.ltb_lt. exact X.
+  - right. apply andb_true_iff in X. destruct X as (X1 & X2). split; [apply N.eqb_eq; exact X1|apply N.ltb_lt; exact X2].
+Qed.
+
 (* what Close's return guarantees for an admitted item *)
 Lemma m_close_waits evs c sb :
   In c (m_clos (m_run evs)) -> In sb (m_subs (m_run evs)) -> s_res sb = ROk ->
